@@ -28,10 +28,13 @@ class Patched:
                     mod.__dict__[k] = v
         self.old_ones = scmod_.feature_ones_like
         scmod_.feature_ones_like = ones_stub
+        self.old_cos = scmod_.compute_sqrt_cos_lat_weights
+        scmod_.compute_sqrt_cos_lat_weights = coslat_stub
         return self
 
     def __exit__(self, *a):
         scmod_.feature_ones_like = self.old_ones
+        scmod_.compute_sqrt_cos_lat_weights = self.old_cos
         for mod, k, old, had in reversed(self.saved):
             if had:
                 mod.__dict__[k] = old
@@ -43,6 +46,15 @@ def ones_stub(data, feature_dims):
     """contract of feature_ones_like: ones over the feature dims of `data`, with its coordinates"""
     fd = [d for d in data.dims if d in feature_dims]
     return LDA(("ones",), fd, {d: data._ext[d] for d in fd}, {d: data._coords[d] for d in fd}, False, "fresh")
+
+
+def coslat_stub(data, feature_dims):
+    """contract of compute_sqrt_cos_lat_weights: a positive weight per latitude, over the (unique) latitude dim"""
+    lat = [d for d in feature_dims if d in ("lat", "latitude", "lats", "Lat", "Latitude", "Lats", "LAT", "LATITUDE", "LATS")]
+    if len(lat) != 1:
+        raise ValueError("No latitude coordinate was found to compute coslat weights." if not lat else "Found ambiguous latitude dimensions")
+    d = lat[0]
+    return LDA(("coslat",), (d,), {d: data._ext[d]}, {d: data._coords[d]}, False, "fresh")
 
 
 def scores_like(T, name, S="§S"):
